@@ -359,6 +359,10 @@ def check_greedy(prog: Program, res: Result) -> None:
 
 
 def check(prog: Program, res: Result) -> None:
+    from . import _parallel
+    _parallel.check_parallel_index(prog, res, "C15-index")
+    from . import _iou
+    _iou.check_iou(prog, res, "C15-iou")
     al = c11.make_alias(prog)
     c11.check_pure(prog, res, al, rule="C15-pure", table=TABLE)
     res.floor("C15-pure", 10)
@@ -366,6 +370,10 @@ def check(prog: Program, res: Result) -> None:
     check_shape(prog, res)
     check_range(prog, res)
     check_pair(prog, res)
+    # conservation across frames: every frame pair contributes its matches AND its misses (a skipped pair loses the
+    # ground-truth instances of that frame from both lists)
+    from . import _batch
+    _batch.check_per_sample_lists(prog, res, "C15-pair", ["sleap_nn.evaluation:match_frame_pairs"])
     from . import _nanred
     _nanred.check_nan_reductions(prog, res, "C15-area", ["sleap_nn.evaluation:compute_instance_area"], floor=2)
     check_greedy(prog, res)
